@@ -47,7 +47,8 @@ class World:
                    faults=[int(x) for x in os.environ.get('VERIF_FAULTS', '').split(',') if x])
         self.die = frozenset(int(x) for x in os.environ.get('VERIF_DIE', '').split(',') if x)
 
-    def reset(self, *, epoch: int = 1, faults=(), file: str | None = None, emit=None, on_run=None):
+    def reset(self, *, epoch: int = 1, faults=(), file: str | None = None, emit=None, on_run=None, fault_exc: str = 'boom'):
+        self.fault_exc = fault_exc            # 'boom': an Exception subclass; 'exit': SystemExit (a BaseException that is no Exception)
         self.epoch = epoch
         self.faults = frozenset(faults)       # labels whose run() raises
         self.log: list[tuple] = []
@@ -170,6 +171,16 @@ def _run(self):
     WORLD.rec('start', k)
     if WORLD.record_env:
         _record_env(self, k)
+    bd = os.environ.get('VERIF_BARRIER_DIR')
+    if bd:
+        # real-backend concurrency observation (E4): stay inside run() until the driver releases us
+        import time
+        WORLD.rec('blocked', k)
+        deadline = time.monotonic() + 180
+        while not os.path.exists(os.path.join(bd, f'go_{self.label}')):
+            if time.monotonic() > deadline:
+                raise RuntimeError('barrier was never released')
+            time.sleep(0.005)
     if self.label in WORLD.die:
         import signal
         WORLD.rec('suicide', k)
@@ -188,6 +199,8 @@ def _run(self):
         vals.append(v)
     if self.label in WORLD.faults:
         WORLD.rec('raise', k)
+        if WORLD.fault_exc == 'exit':
+            raise SystemExit(f'exit:{self.label}')      # e.g. a library calling sys.exit() inside a task
         # chained, so that a coordinator reporting the *cause* of the task's own
         # exception instead of the exception itself is visible
         raise Boom(self.label) from KeyError('inner-cause')
